@@ -116,6 +116,9 @@ PROP_FILES = {
     "C14": ["Props/C14.v"],
     "C19": ["Props/C19.v"],
     "C18": ["Props/C18.v"],
+    "C15": ["Props/C15.v"],
+    "C16": ["Props/C16.v"],
+    "C17": ["Props/C17.v"],
 }
 
 TRUSTED_BASE = [
